@@ -317,18 +317,34 @@ class Check:
                                             events=res.get('events'), size=_case_size(case)))
 
     # -- correspondence -------------------------------------------------------------------------
-    def validate(self, model, scen, results, label=None):
-        lines = []
+    def validate(self, model, scen, results, label=None, procs=None):
+        """Replay the recorded traces through the Lean driver (several driver processes in parallel).
+        A scenario may return no lines for a case (not validated: too large for the validator)."""
+        chunks = []
+        idx = []
         for k, (case, res) in enumerate(results):
-            lines += scen.model_lines(k, case, res)
-        out = run_driver(model, lines)
+            ls = scen.model_lines(k, case, res)
+            if ls:
+                chunks.append(ls)
+                idx.append(k)
+        if not chunks:
+            return 0, 0
+        procs = procs or min(self.workers, max(1, len(chunks) // 20))
+        groups = [[] for _ in range(procs)]
+        for i, ls in enumerate(chunks):
+            groups[i % procs] += ls
+        import concurrent.futures as cf
+        with cf.ThreadPoolExecutor(procs) as ex:
+            outs = list(ex.map(lambda g: run_driver(model, g) if g else [], groups))
         verdict = {}
-        for l in out:
-            w = l.split(' ', 2)
-            if len(w) >= 2 and w[0] in ('ok', 'REJECT', 'NOFINAL', 'MISMATCH'):
-                verdict[w[1]] = l
+        for out in outs:
+            for l in out:
+                w = l.split(' ', 2)
+                if len(w) >= 2 and w[0] in ('ok', 'REJECT', 'NOFINAL', 'MISMATCH'):
+                    verdict[w[1]] = l
         nval = 0
-        for k, (case, res) in enumerate(results):
+        for k in idx:
+            case, res = results[k]
             v = verdict.get(str(k))
             if v is None:
                 self.corr_breaks.append(dict(model=model, case=case, verdict='no answer from the driver', events=res.get('events')))
@@ -338,8 +354,7 @@ class Check:
                 self.corr_breaks.append(dict(model=model, case=case, verdict=v, events=res.get('events'),
                                              monitors=res.get('monitors')))
         self.cov['traces_validated_against_impl'] += nval
-        name = label or f'correspondence:{model}'
-        return nval, len(results)
+        return nval, len(idx)
 
     # -- verdict --------------------------------------------------------------------------------
     def finish(self, level_text=''):
